@@ -47,7 +47,7 @@ fn float_text(r: &mut Rng) -> String {
 fn f32_bits(r: &mut Rng) -> u32 { match r.below(4) { 0 => *r.pick(&[0u32, 0x8000_0000, 0x3f80_0000, 0x7f80_0000, 0xff80_0000, 0x7fc0_0000, 0x7fa0_0001, 0x4b80_0000, 0x4f00_0000, 0xcf00_0001, 0x7f7f_ffff, 1, 0x477f_ff00, 0xc300_0000, 0x4380_0000]), 1 => ((r.below(2000) as f32) / 8.0 - 100.0).to_bits(), _ => r.next() as u32 } }
 fn f64_bits(r: &mut Rng) -> u64 { match r.below(4) { 0 => *r.pick(&[0u64, 0x8000_0000_0000_0000, 0x3ff0_0000_0000_0000, 0x7ff0_0000_0000_0000, 0xfff0_0000_0000_0000, 0x7ff8_0000_0000_0000, 0x7ff4_0000_0000_0001, 0x47ef_ffff_e000_0000, 0x47f0_0000_0000_0000, 0x43e0_0000_0000_0000, 0xc3e0_0000_0000_0001, 0x40ef_ffe0_0000_0000, 1]), 1 => ((r.below(200000) as f64) / 16.0 - 5000.0).to_bits(), _ => r.next() } }
 
-fn rand_len(r: &mut Rng) -> usize { match r.below(8) { 0 | 1 => 0, 2 | 3 => 1, 4 => 2, 5 => 3, _ => r.range(2, 6) as usize } }
+fn rand_len(r: &mut Rng) -> usize { match r.below(9) { 0 => 0, 1 | 2 | 3 => 1, 4 | 5 => 2, 6 => 3, _ => r.range(2, 6) as usize } }
 
 fn rand_value(r: &mut Rng, variant: u64) -> PrimitiveValue {
     let n = rand_len(r);
@@ -433,7 +433,7 @@ pub fn cases(ctx: &Ctx) -> Vec<Case> {
     out.push(int_case(&mut r, &PrimitiveValue::I32([1i32, -1].into_iter().collect()), 4, "corpus"));
     // ---- generated
     while out.len() < ctx.n {
-        let variant = r.below(16);
+        let variant = if r.chance(1, 8) { r.range(12, 15) } else { r.below(12) };
         let v = rand_value(&mut r, variant);
         match r.below(10) {
             0..=4 => { let w = r.below(10); out.push(int_case(&mut r, &v, w, "gen")); }
